@@ -595,9 +595,19 @@ def z_r5_offset_sign(p: Project, rep: Report):
     if not rets:
         raise AnalysisError("gmt_offset returns nothing")
     rel = p.module("ofxtools.utils").relpath
+    # module-level numeric constants keep their sign
+    consts = {}
+    for st in p.module("ofxtools.utils").tree.body:
+        if isinstance(st, (ast.Assign, ast.AnnAssign)) and st.value is not None:
+            tg = st.targets[0] if isinstance(st, ast.Assign) and len(st.targets) == 1 else (st.target if isinstance(st, ast.AnnAssign) else None)
+            v = st.value
+            if isinstance(v, ast.UnaryOp) and isinstance(v.op, ast.USub) and isinstance(v.operand, ast.Constant):
+                v = ast.Constant(value=-v.operand.value) if isinstance(v.operand.value, (int, float)) else v
+            if isinstance(tg, ast.Name) and isinstance(v, ast.Constant) and isinstance(v.value, (int, float)) and not isinstance(v.value, bool) and tg.id not in params:
+                consts[tg.id] = POS if v.value > 0 else (NEG if v.value < 0 else ZERO)
     for i, r in enumerate(rets):
         for hs, want in ((NEG, (NEG,)), (POS, (POS,))):
-            got = sign_of(r.value, {params[0]: hs, params[1]: POS}, fn)
+            got = sign_of(r.value, {**consts, params[0]: hs, params[1]: POS}, fn)
             rep.check("Z-R5", f"gmt_offset:return#{i}:hours-{hs}", got in want, f"with {hs.lower()} hours and positive minutes the offset evaluates to sign {got} (expected {want[0]}): the minutes are not given the sign of the hours, so [-3.30] is read as -2:30" if got not in want else "", f"{rel}:{r.lineno}")
 
 
